@@ -386,6 +386,39 @@ def expand(part, job):
     part.ev()
 
 
+def clock_independence(part, kind):
+    """
+    repeating an export gives an equal result - also when the wall clock says another day: the process is put into two time zones
+    26 hours apart (the local dates always differ) and every exported text must be byte-identical
+    """
+    import time
+
+    exports = {"cif": lambda c: c.to_cif_string(), "res": lambda c: c.to_shelx_string(), "poscar": lambda c: c.to_poscar_string()}
+    old = os.environ.get("TZ")
+    texts = {}
+    try:
+        for tz in ("UTC+12", "UTC-14"):     # POSIX sign convention: 12 h behind / 14 h ahead of UTC
+            os.environ["TZ"] = tz
+            time.tzset()
+            c = initial(kind)
+            for name, fn in exports.items():
+                part.tr()
+                texts[(tz, name)] = answer(fn, c)
+    finally:
+        if old is None:
+            os.environ.pop("TZ", None)
+        else:
+            os.environ["TZ"] = old
+        time.tzset()
+    part.ev()
+    for name in exports:
+        a, b = texts[("UTC+12", name)], texts[("UTC-14", name)]
+        if a != b:
+            part.fail("export-depends-on-clock:%s:%s" % (name, kind), "the %s export of the same crystal differs between two runs whose local dates differ (time zones UTC-12 / UTC+14): exported files must depend on the crystal only" % name,
+                      {"kind": "clock", "structure": kind})
+    part.outcome(("clock", kind))
+
+
 def aliasing_worker(part, job):
     """
     answers handed out earlier must not change under later operations.  The canonical-state search above cannot
@@ -459,6 +492,7 @@ def run(ctx):
     prefixes = [(k, list(h)) for k in kinds for L in range(1, alias_depth + 1) for h in it.product(alphabet_for(k), repeat=L)
                 if any(x in QUERIES for x in h) and (L == 1 or k in ("water_H", "ammonia_water_H") or ctx.thorough)]
     ctx.pmap(aliasing_worker, prefixes)
+    ctx.pmap(clock_independence, kinds)
     ctx.bounds["aliasing_histories"] = "%d prefixes of length <= %d (no deduplication) x %d final operations" % (len(prefixes), alias_depth, len(ALPHABET))
     # secondary binding: TLA+ memo-protocol model explored by TLC, every edge replayed on the real object
     from mc.checks import c14_tla
@@ -481,6 +515,12 @@ def run(ctx):
 def replay(ctx, case):
     if case.get("kind") == "alias":
         aliasing_worker(ctx, (case["structure"], case["history"]))
+        return
+    if case.get("kind") == "clock":
+        clock_independence(ctx, case["structure"])
+        return
+    if case.get("op") == "sibling_then_all":
+        cross_object(ctx, replay_history(case["structure"], case["history"]), case["history"], case["structure"])
         return
     if case.get("kind") == "tla":
         from mc.checks import c14_tla
